@@ -119,10 +119,11 @@ CloneOps(ts) ==
 
 \* target capacities: exactly enough, the source capacity, more than the source capacity
 SerdeOps(ts) ==
-  {[name |-> "serde", fmt |-> f, m |-> m] : f \in {"json", "bincode"}, m \in {Len(ts), cap, cap + 1}}
+  \* place = "inplace": Deserialize::deserialize_in_place into a target that already holds a stale entry
+  {[name |-> "serde", fmt |-> f, m |-> m, place |-> pl] : f \in {"json", "bincode"}, m \in {Len(ts), cap, cap + 1}, pl \in {"new", "inplace"}}
 
 \* "debug_w" / "display_w": the same renderings requested with a width / alignment in the format spec
-FmtStyles == {"debug", "alt", "display", "debug_w", "display_w"}
+FmtStyles == {"debug", "alt", "display", "debug_w", "display_w", "display_alt"}
 FmtOps(ts) == {[name |-> "fmt", style |-> st] : st \in FmtStyles}
 
 SetCoreOps(ts) ==
